@@ -837,6 +837,41 @@ def grid_unit(kind, rows=36, per_row=3):
     return '\n'.join(lines), truth
 
 
+def deep_unit(depth):
+    """constructs nested `depth` levels deep (what generated code and long concatenations look like): a left-leaning
+    chain of additions on one line and an if / else-if chain, with the truth of every level"""
+    ops = ['a%d' % k for k in range(depth + 1)]
+    lines = ['class Deep%d {' % depth, '  int sum(int v) {']
+    truth = []
+    chain = ops[0]
+    ln = len(lines) + 1
+    for k in range(1, depth + 1):
+        left = chain
+        chain = left + ' + ' + ops[k]
+        truth.append(dict(kind='binary', line=ln, text=chain, op='+', opkind='add_expression', left=left, right=ops[k]))
+    lines.append('    int r = ' + chain + ';')
+    first = len(lines) + 1
+    ifl = []
+    for k in range(depth):
+        ifl.append(('    ' if k == 0 else '    else ') + 'if (v > %d) g%d(v);' % (k, k % 9))
+    lines += ifl
+    lines += ['    return r;', '  }', '}', '']
+    text = '\n'.join(lines)
+    # the if at level k spans from its own `if` to the end of the chain
+    alltxt = '\n'.join(ifl)
+    pos = 0
+    starts = []
+    for k in range(depth):
+        i = alltxt.index('if (v > %d)' % k, pos)
+        starts.append(i)
+        pos = i + 1
+    for k in range(depth):
+        t = alltxt[starts[k]:]
+        els = alltxt[starts[k + 1]:] if k + 1 < depth else None
+        truth.append(dict(kind='if', line=first + k, text=t, cond='(v > %d)' % k, then='g%d(v);' % (k % 9), els=els))
+    return text, truth
+
+
 GRID_KINDS = ['if', 'while', 'return', 'break', 'continue', 'assert', 'do', 'for', 'block', 'call', 'new', 'comment']
 
 
